@@ -5415,26 +5415,24 @@ impl BytecodeVM {
                 let result = interp.create_object(&guard);
 
                 if let JsValue::Object(src_obj) = src_val {
-                    // Copy all enumerable own properties except excluded ones
-                    let src_borrowed = src_obj.borrow();
-                    for (key, prop) in src_borrowed.properties.iter() {
-                        // Skip non-enumerable properties
-                        if !prop.enumerable() {
-                            continue;
-                        }
-
+                    // Copy all enumerable own properties (array elements included) except
+                    // excluded ones
+                    let entries = src_obj.borrow().own_enumerable_entries();
+                    for (key, value) in entries {
                         // Check if this key should be excluded
-                        let should_exclude = match key {
+                        let should_exclude = match &key {
                             PropertyKey::String(s) => {
                                 excluded.iter().any(|k| k.as_str() == s.as_str())
                             }
-                            PropertyKey::Symbol(_) | PropertyKey::Index(_) => false,
+                            PropertyKey::Index(i) => {
+                                let text = i.to_string();
+                                excluded.iter().any(|k| k.as_str() == text)
+                            }
+                            PropertyKey::Symbol(_) => false,
                         };
 
                         if !should_exclude {
-                            result
-                                .borrow_mut()
-                                .set_property(key.clone(), prop.value.clone());
+                            result.borrow_mut().set_property(key, value);
                         }
                     }
                 }
@@ -5450,15 +5448,7 @@ impl BytecodeVM {
 
                 if let (JsValue::Object(dst_obj), JsValue::Object(src_obj)) = (&dst_val, &src_val) {
                     // Collect properties first to avoid borrow issues
-                    let props_to_copy: Vec<_> = {
-                        let src_borrowed = src_obj.borrow();
-                        src_borrowed
-                            .properties
-                            .iter()
-                            .filter(|(_, prop)| prop.enumerable())
-                            .map(|(key, prop)| (key.clone(), prop.value.clone()))
-                            .collect()
-                    };
+                    let props_to_copy = src_obj.borrow().own_enumerable_entries();
 
                     // Copy properties to destination
                     let mut dst_borrowed = dst_obj.borrow_mut();
